@@ -145,7 +145,11 @@ def _array(rng, ft, n, hostile: bool):
 
 
 def _tmv(rng, ft, hostile):
-    return ThrustModeValues({m: float(_scalar(rng, ft, hostile)) for m in ThrustMode})
+    modes = list(ThrustMode)
+    if hostile and rng.random() < 0.3:
+        # a value that names only some of the modes (the others are 0), or none at all
+        modes = rng.sample(modes, rng.randint(0, 3))
+    return ThrustModeValues({m: float(_scalar(rng, ft, hostile)) for m in modes})
 
 
 def species_plan(rng, shape: str) -> dict[str, list[Species]]:
